@@ -12,6 +12,23 @@ key order: size[y][x] row-major (y outer, x inner), int.
 Cap rule: base.layouts over the cells with default 0 and alphabet 1..4 (all layouts with <= k givens, k maximal with at
 most `cap` layouts); every layout is judged with checkered=False and with checkered=True.  Givens larger than the board
 are kept in the alphabet (well-formed by format, simply unsolvable).
+
+"large" family, descriptor ("large", h, w, level) with level 0 = quick / 1 = thorough: boards 4x4 .. 6x6, 4x6 / 6x4 and
+long boards 1x12 .. 2x10 in both orientations with a fixed selection of instances (problem dicts carry "family":
+"large"): the clue-free board where it has few enough answers, single givens of two digits (10, 12, on a line also
+the board size) in the far corner, and instances derived from answers G - the first answer of an "anchor" board
+(distinct givens adding up to the board size in the corners and the centre), the first answers of the board with a 10
+resp. 11 in the far corner, the 51st answer of the clue-free board in search order turned by 180 degrees, and its 5001st answer (the
+11 and the 5001st only in the thorough tier) -: every cell
+given, every k-th given blanked, the givens of the far end blanked (last cells, last row, last column), one two-cell polyomino blanked, one given per polyomino (its first resp. last cell), only the last row and last column
+given, and one given changed by +1 / -1 (first, last, middle cell, a corner, an edge) on the full set and on the thinned
+set; each once plain and, for a part, checkered.
+Oracle: search() - backtracking over the rules (polyomino of a picked cell = any connected set of free cells obeying
+the givens and the no-equal-neighbours rule) returning ALL answers; selftest() compares it with the candidates()
+filter (all partitions by brute force) on every board up to 3x4.
+NOT in the family: a polyomino that covers a whole two-dimensional board of more than 9 cells.  The oracle answers at
+once, but solve_fillomino needs 16 s on 2x6, 57 s on 3x4 and does not finish within 15 minutes on 4x4 with the single
+given 16 (the answer it finally gives on 3x4 is right, so this is a cost observation, not a rule violation).
 """
 
 from . import base
@@ -130,6 +147,300 @@ def candidates(h, w):
     return out
 
 
+def search(h, w, problem, checkered=False):
+    """Generator of ALL answers (flat size tuples) of a board with givens, written from the rules.
+
+    One cell that has no polyomino yet is picked - the one with the largest given, or without givens the first one in
+    row-major order - and its polyomino is chosen among all connected sets of cells without polyomino that contain it;
+    a set is admissible if every given inside equals its number of cells and no cell beside it belongs to an already
+    chosen polyomino of that size or carries that size as a given (that cell's own polyomino would be a second one of
+    the same size next to it).  Every partition into polyominoes arises exactly once, because in a partition the
+    polyomino of the picked cell is one definite set.  Growing a set stops when it exceeds a given inside
+    it, when it touches a chosen polyomino of the size it is bound to, or when the cells it could still take are fewer
+    than a given inside it demands.  checkered: the finished partition must be 2-colourable."""
+    n = h * w
+    given = [problem[y][x] if problem[y][x] >= 1 else 0 for y in range(h) for x in range(w)]
+    nb = [[] for _ in range(n)]
+    for y in range(h):
+        for x in range(w):
+            c = y * w + x
+            if x + 1 < w:
+                nb[c].append(c + 1)
+                nb[c + 1].append(c)
+            if y + 1 < h:
+                nb[c].append(c + w)
+                nb[c + w].append(c)
+    size = [0] * n  # size of the chosen polyomino per cell, 0 = none yet
+    pid = [-1] * n
+    polys = []
+
+    def enough(cur, banned, target):
+        """Can cur still grow to target cells (through cells without polyomino, not banned, blank or given = target)?"""
+        seen = set(cur)
+        stack = list(cur)
+        while stack and len(seen) < target:
+            c = stack.pop()
+            for d in nb[c]:
+                if d not in seen and not size[d] and d not in banned and given[d] in (0, target):
+                    seen.add(d)
+                    stack.append(d)
+        return len(seen) >= target
+
+    def admissible(cur):
+        k = len(cur)
+        inside = set(cur)
+        for c in cur:
+            if given[c] and given[c] != k:
+                return False
+            for d in nb[c]:
+                if d not in inside and (size[d] == k or (not size[d] and given[d] == k)):
+                    return False
+        return True
+
+    def grow(cur, frontier, banned, target, touch):
+        k = len(cur)
+        if (target is None or k == target) and admissible(cur):
+            yield cur
+        if target is not None and (k >= target or not enough(cur, banned, target)):
+            return
+        for i, c in enumerate(frontier):
+            t2 = target
+            if given[c]:
+                if target is not None and given[c] != target:
+                    continue
+                t2 = given[c]
+            if k + 1 > (t2 if t2 is not None else n):
+                continue
+            touch2 = touch | set(size[d] for d in nb[c] if size[d])
+            if t2 is not None and t2 in touch2:
+                continue
+            b2 = banned | set(frontier[:i])
+            cur2 = cur + [c]
+            f2 = list(frontier[i + 1 :])
+            for d in nb[c]:
+                if not size[d] and d not in cur2 and d not in b2 and d not in f2:
+                    f2.append(d)
+            for s in grow(cur2, f2, b2, t2, touch2):
+                yield s
+
+    def colourable():
+        adj = [set() for _ in polys]
+        for c in range(n):
+            for d in nb[c]:
+                if pid[c] != pid[d]:
+                    adj[pid[c]].add(pid[d])
+        return two_colourable(len(polys), adj)
+
+    def rec():
+        c = None
+        for q in range(n):
+            if not size[q]:
+                if given[q]:
+                    if c is None or not given[c] or given[q] > given[c]:
+                        c = q
+                elif c is None:
+                    c = q
+        if c is None:
+            if not checkered or colourable():
+                yield tuple(size)
+            return
+        target = given[c] or None
+        touch = set(size[d] for d in nb[c] if size[d])
+        if target is not None and target in touch:
+            return
+        for s in grow([c], [d for d in nb[c] if not size[d]], set(), target, touch):
+            for q in s:
+                size[q] = len(s)
+                pid[q] = len(polys)
+            polys.append(s)
+            for g in rec():
+                yield g
+            polys.pop()
+            for q in s:
+                size[q] = 0
+                pid[q] = -1
+
+    return rec()
+
+
+_SEEDS = {}
+
+
+def _first(h, w, prob, index=0):
+    import itertools
+
+    return next(itertools.islice(search(h, w, prob), index, None), None)
+
+
+def seed_answers(h, w, level):
+    """Answers the dense instances are derived from (see the module docstring)."""
+    key = (h, w, level)
+    if key in _SEEDS:
+        return _SEEDS[key]
+    n = h * w
+    out = []
+    # anchor board: distinct givens adding up to the board size in the corners and the centre
+    spots = []
+    for c in ((0, 0), (h - 1, w - 1), (h // 2, w // 2), (0, w - 1), (h - 1, 0)):
+        if c not in spots:
+            spots.append(c)
+    while len(spots) > 1 and n // len(spots) - (len(spots) - 1) // 2 < 1:
+        spots.pop()
+    k = len(spots)
+    vals = [n // k - (k - 1) // 2 + i for i in range(k)]
+    vals[-1] += n - sum(vals)
+    prob = [[0] * w for _ in range(h)]
+    for (y, x), v in zip(spots, vals):
+        prob[y][x] = v
+    g = _first(h, w, prob)
+    if g is not None:
+        out.append(g)
+    for v in ((10,) if level == 0 else (10, 11)):
+        if n >= v + 2:
+            prob = [[0] * w for _ in range(h)]
+            prob[h - 1][w - 1] = v
+            out.append(_first(h, w, prob, 7 if v == 11 else 0))
+    empty = [[0] * w for _ in range(h)]
+    # the first answers of the clue-free board start with polyominoes of 1 - 3 cells; turned by 180 degrees they end
+    # with them, which is where the far-end instances need the no-equal-neighbours rule
+    g = _first(h, w, empty, 50)
+    if g is not None:
+        out.append(tuple(reversed(g)))
+    for index in ([] if level == 0 else [5000]):
+        g = _first(h, w, empty, index)
+        if g is not None:
+            out.append(g)
+    res = []
+    for g in out:
+        if g is not None and g not in res:
+            res.append(g)
+    _SEEDS[key] = res
+    return res
+
+
+def _polyominoes(h, w, g):
+    """Connected components of equal numbers of a flat size grid, each as a sorted cell list."""
+    comps = []
+    todo = set(range(h * w))
+    while todo:
+        s = min(todo)
+        comp = [s]
+        todo.discard(s)
+        stack = [s]
+        while stack:
+            c = stack.pop()
+            y, x = divmod(c, w)
+            for d in ([c - 1] if x else []) + ([c + 1] if x + 1 < w else []) + ([c - w] if y else []) + ([c + w] if y + 1 < h else []):
+                if d in todo and g[d] == g[c]:
+                    todo.discard(d)
+                    comp.append(d)
+                    stack.append(d)
+        comps.append(sorted(comp))
+    return comps
+
+
+def large_instances(h, w, level):
+    """(flat givens, checkered, tag) of the large family of one board.  The selection avoids what solve_fillomino needs
+    many seconds for (sparse givens around a polyomino of 9 and more cells) and what has 1e5 and more answers."""
+    n = h * w
+    line = h == 1 or w == 1
+    seen = set()
+    out = []
+
+    def emit(cells, checkered, tag):
+        key = (tuple(cells), checkered)
+        if key not in seen:
+            seen.add(key)
+            out.append((list(cells), checkered, tag))
+
+    if n <= 14 or line or (level and n <= 16):
+        emit([0] * n, False, "empty")
+        if level or n <= 12:
+            emit([0] * n, True, "empty")
+    # single givens of two digits in the far corner (the whole board only on a line, see the module docstring)
+    for v in ((10, 12, n - 1, n) if level else (10, n)):
+        if 10 <= v <= n and (line or (n <= 16 and v <= 12)):
+            c = [0] * n
+            c[n - 1] = v
+            emit(c, False, "single")
+            if level:
+                c = [0] * n
+                c[0] = v
+                emit(c, True, "single")
+    for gi, g in enumerate(seed_answers(h, w, level)):
+        comps = _polyominoes(h, w, g)
+        firsts = set(c[0] for c in comps)
+        lasts = set(c[-1] for c in comps)
+        sparse_ok = max(len(c) for c in comps) <= (6 if level == 0 else 8) or line
+        half = [0 if i % 2 == 1 else v for i, v in enumerate(g)]
+        emit(g, False, "full")
+        # blank cells clustered at the far end, where only the rules can fill them in: the last 2 / w + 1 / n // 3 cells,
+        # the last row, the last column, the last two lines
+        tails = [[i >= n - 2 for i in range(n)], [i >= n - n // 3 for i in range(n)]]
+        if not line:
+            tails += [[i // w == h - 1 for i in range(n)], [i % w == w - 1 for i in range(n)]]
+        if level:
+            tails += [[i >= n - w - 1 for i in range(n)], [i < 2 for i in range(n)], [i < n // 3 for i in range(n)]]
+            if not line:
+                tails += [[i // w >= h - 2 for i in range(n)], [i % w >= w - 2 for i in range(n)], [i // w == h - 1 or i % w == w - 1 for i in range(n)]]
+        for ti, blank in enumerate(tails):
+            if sum(blank) > max(2, n // 3) or (level and gi not in (0, 2)):
+                continue
+            if level or gi == 2 or (gi == 0 and ti == 0):
+                emit([0 if b else v for b, v in zip(blank, g)], level == 1 and ti % 3 == 2, "far-blank")
+        # one whole two-cell polyomino blanked: only the no-equal-neighbours rule forbids to fill it with 1 1
+        dominoes = [c for c in comps if len(c) == 2]
+        if level == 0:
+            dominoes = dominoes[-1:] + [c for c in dominoes[:-1] if (c[1] - c[0] == 1) != (dominoes[-1][1] - dominoes[-1][0] == 1)][-1:]
+        for c in dominoes if (level or gi != 1) else []:
+            emit([0 if i in c else v for i, v in enumerate(g)], False, "domino")
+        if level == 0:
+            # quick tier: a handful per answer
+            if gi == 0:
+                emit(g, True, "full")
+                emit(half, False, "thin")
+                if sparse_ok:
+                    emit([v if i in firsts else 0 for i, v in enumerate(g)], False, "one-per-polyomino")
+                pos = 0
+            elif gi == 2:
+                emit(half, True, "thin")
+                continue
+            else:
+                pos = n - 1
+            if line:
+                emit([v if i in lasts else 0 for i, v in enumerate(g)], True, "one-per-polyomino")
+                emit([v if (i // w == h - 1 or i % w == w - 1) else 0 for i, v in enumerate(g)], False, "far-lines")
+            c = list(g)
+            c[pos] += 1
+            emit(c, False, "changed")
+            if gi == 0:
+                c = [0 if i % 2 != pos % 2 else v for i, v in enumerate(g)]
+                c[pos] = g[pos] - 1 if g[pos] > 1 else g[pos] + 1
+                emit(c, False, "changed-thin")
+            continue
+        emit(g, True, "full")
+        for k, o in ((2, 0), (2, 1), (3, 0), (5, 1)):
+            emit([0 if i % k == o else v for i, v in enumerate(g)], gi % 2 == 1, "thin")
+        if sparse_ok:
+            # one given per polyomino (first resp. last cell)
+            emit([v if i in firsts else 0 for i, v in enumerate(g)], False, "one-per-polyomino")
+            emit([v if i in lasts else 0 for i, v in enumerate(g)], True, "one-per-polyomino")
+        if n <= 16 or line:
+            emit([v if (i // w == h - 1 or i % w == w - 1) else 0 for i, v in enumerate(g)], False, "far-lines")
+        for pos in [0, n - 1, (n // 2) & ~1, w - 1, n - w][: 5 if gi == 0 else 1]:
+            for d in (1, -1):
+                if g[pos] + d >= 1:
+                    c = list(g)
+                    c[pos] += d
+                    if d == 1:
+                        emit(c, False, "changed")
+                    if half[pos]:
+                        c = list(half)
+                        c[pos] += d
+                        emit(c, False, "changed-thin")
+    return out
+
+
 class Fillomino(base.Rule):
     name = "fillomino"
 
@@ -137,9 +448,18 @@ class Fillomino(base.Rule):
         s = [(1, 1), (1, 2), (2, 1), (1, 3), (3, 1), (2, 2), (1, 4), (4, 1), (2, 3), (3, 2), (3, 3)]
         if tier != "quick":
             s += [(1, 5), (5, 1), (2, 4), (4, 2), (3, 4), (4, 3)]
-        return s
+        level = 0 if tier == "quick" else 1
+        big = [(4, 4), (5, 5), (4, 6), (6, 4), (1, 12), (12, 1)]
+        if level:
+            big += [(2, 7), (7, 2), (6, 6), (5, 6), (6, 5), (3, 7), (7, 3), (2, 10), (10, 2), (1, 16), (16, 1)]
+        return s + [("large", h, w, level) for h, w in big]
 
     def instances(self, shape, cap):
+        if shape[0] == "large":
+            _, h, w, level = shape
+            for cells, checkered, tag in large_instances(h, w, level):
+                yield {"height": h, "width": w, "problem": base.grid(cells, h, w), "checkered": checkered, "family": "large"}
+            return
         h, w = shape
         lays, k = base.layouts(h * w, 0, [1, 2, 3, 4], cap)
         for cells in lays:
@@ -155,6 +475,8 @@ class Fillomino(base.Rule):
 
     def readings(self, p):
         h, w = p["height"], p["width"]
+        if p.get("family") == "large":
+            return [list(search(h, w, p["problem"], p["checkered"]))]
         given = [(y * w + x, p["problem"][y][x]) for y in range(h) for x in range(w) if p["problem"][y][x] >= 1]
         out = []
         for sizes, chk in candidates(h, w):
@@ -180,6 +502,21 @@ def selftest():
     # 1x2: only the domino (two monominoes would touch); 2x2: the square, 1+3 (4 ways); 2+2 and 1+1+2 touch
     assert [s for s, _ in candidates(1, 2)] == [(2, 2)]
     assert len(candidates(2, 2)) == 5
+    # search() against the brute-force candidates() filter: clue-free, all layouts with <= 2 givens (1..5 and the board
+    # size), and the large family built on the small board; plain and checkered
+    for h, w in ((1, 1), (1, 2), (1, 4), (4, 1), (2, 2), (2, 3), (3, 2), (3, 3), (2, 4), (4, 2), (3, 4), (4, 3)):
+        n = h * w
+        cands = candidates(h, w)
+        lays, k = base.layouts(n, 0, [1, 2, 3, 4, 5, n], 700)
+        probs = [(cells, chk) for cells in lays for chk in (False, True)]
+        probs += [(cells, chk) for cells, chk, tag in large_instances(h, w, 1)]
+        for cells, chk in probs:
+            given = [(i, v) for i, v in enumerate(cells) if v >= 1]
+            ref = sorted(s for s, c in cands if (c or not chk) and all(s[i] == v for i, v in given))
+            got = sorted(search(h, w, base.grid(cells, h, w), chk))
+            assert got == ref, (h, w, cells, chk)
+    assert len(list(search(4, 4, [[0] * 4 for _ in range(4)]))) == 259728
+    # (search() also finds exactly one answer for the published 8x8 example, in about two minutes: not run here)
 
 
 RULE = Fillomino()
